@@ -93,7 +93,7 @@ try:
 
         @beartype
         def getstate(self) -> tuple[Any, ...]:
-            return (self._generator.bit_generator.state,)
+            return (self._generator.bit_generator.state, self.gauss_next)
 
         @beartype
         def randbytes(self, n: int) -> bytes:
@@ -110,11 +110,13 @@ try:
             self, a: _RandSeedT, version: int = 2
         ) -> None:
             self._generator = default_rng(self.bit_generator(a))
+            self.gauss_next = None
 
         @beartype
         def setstate(self, state: tuple[Any, ...]) -> None:
-            (_state,) = state
+            _state, gauss_next = state
             self._generator.bit_generator.state = _state
+            self.gauss_next = gauss_next
 
     class PCG64DXSMRandom(NumPyRandomBase):
         r"""
